@@ -173,12 +173,29 @@ type Scenario struct {
 	Calls    []*Call
 	NeedTag  bool
 	NeedKf   bool
+	OnlyHReq bool // every rule gets by with the injected names H and Req (the two-object pool method can be used)
 	DoMgmt   func(op int)
 }
 
 func (sc *Scenario) Index() {
 	sc.byID = map[int]*RuleDef{}
+	sc.OnlyHReq = true
 	for _, r := range sc.Universe {
+		switch r.Ret {
+		case RetKind, RetTopKind, RetElse:
+			sc.OnlyHReq = false
+		}
+		for _, s := range r.Secs {
+			switch s.Kind {
+			case SecY, SecCall, SecAsgCall, SecLocal, SecReader, SecIfCall, SecUpd:
+			case SecConc:
+				if s.Arg&(1<<ChAsgField|1<<ChFunc) != 0 {
+					sc.OnlyHReq = false
+				}
+			default:
+				sc.OnlyHReq = false
+			}
+		}
 		sc.byID[r.ID] = r
 		for _, s := range r.Secs {
 			if s.Kind == SecStop {
@@ -377,7 +394,9 @@ func InvokePool(sc *Scenario, p *engine.GenginePool, c *Call) {
 		case MPoolEM:
 			// the two-object form injects only Req and Resp; the observer and the
 			// per-rule keys must already be part of the pool's apis in scenarios that use it
-			err, res = p.ExecuteRulesWithSpecifiedEM("Req", data["Req"], "Resp", data["Resp"])
+			// the two-object form: the observer travels as the "request", Req as the "response";
+			// only generated for rule sets that need nothing else (Scenario.OnlyHReq)
+			err, res = p.ExecuteRulesWithSpecifiedEM("H", data["H"], "Req", data["Req"])
 		case MPoolEMMulti:
 			err, res = p.ExecuteRulesWithMultiInputWithSpecifiedEM(data)
 		case MPoolSelEM:
